@@ -5,7 +5,7 @@
    "ring"/"field": Section hypotheses, closed at Qc below. *)
 From Coq Require Import Permutation.
 From Amgcl Require Import Scalar QcInst Vec Crs KernelsProofs DirectUtil CuthillMcKee Direct Inverse StaticMat Qr DirectSpec
-     CuthillMcKeeProofs DirectProofs InverseProofs StaticMatProofs CroutProofs.
+     CuthillMcKeeProofs DirectProofs InverseProofs StaticMatProofs CroutProofs InverseExact QrProofs.
 Local Open Scope S_scope.
 
 (* ------------------------------------------------------------------------------------ *)
@@ -149,25 +149,24 @@ Theorem C16_skyline_lu_solves reverse (A : crs S) f (rhs x y : vec S) :
   forall r, r < nrows A -> Ax A (fst (sky_solve f rhs x y)) r = vget rhs r.
 Proof. exact (skyline_lu_solves Sft Seqb reverse A f rhs x y). Qed.
 
-(* A3 (field), partial: detail::inverse returns a right inverse whenever it returns at all
-   (every chosen pivot non-zero), proved for n = 1 and n = 2 by exhausting the pivot choices.
-   [sinv s0 = s0] is how the exact instance (and vq::Q) totalise 1/0; it makes the C++
-   assertion [!is_zero(d)] equivalent to "pivot non-zero". *)
+(* A3 (field): detail::inverse returns a right inverse whenever it returns at all (every chosen
+   pivot non-zero), for EVERY n, whatever the uninitialised scratch array t contains.  Proof: invariant
+   P A0 = L U over the elimination steps (partial pivoting through the index vector p, inverted
+   pivots stored on the diagonal), then the two triangular solves per column.
+   [sinv s0 = s0] is how the exact instance (and vq::Q) totalise 1/0; it makes the C++ assertion
+   [!is_zero(d)] equivalent to "pivot non-zero". *)
 Hypothesis sinv_0 : sinv (@s0 S) = s0.
-Theorem C16_inverse_exact_partial n (A t B : vec S) : (n <= 2)%nat ->
+Theorem C16_inverse_exact n (A t B : vec S) :
   length A = (n * n)%nat -> length t = (n * n)%nat ->
   inverse n A t = Some B ->
   forall i j, i < n -> j < n -> mat_mul_get n A B i j = if Nat.eqb i j then s1 else s0.
-Proof. exact (inverse_exact_small Sft Seqb sinv_0 n A t B). Qed.
+Proof. intros HA Ht. exact (inverse_exact Sft Seqb sinv_0 n A HA t B Ht). Qed.
 
-(* FULL STATEMENT (unproved): A3 for every n.
-   forall n (A t B : vec S), length A = n*n -> length t = n*n -> inverse n A t = Some B ->
-     forall i j, i < n -> j < n -> mat_mul_get n A B i j = if Nat.eqb i j then s1 else s0.
-   B (ordered field): A non-singular -> inverse n A t <> None  (partial pivoting by |.| only
-   ever picks a zero pivot when the whole remaining column is zero).
-   Tested instead: exact correspondence with Inverse.v and the spec oracle A*inv(A) = I for
-   n <= 4 (6 thorough) incl. exhaustive 2x2 over {-2..2} and 3x3 over {-1,0,1}; singular
-   inputs give "assert" on both sides. *)
+(* FULL STATEMENT (unproved): A3-B (ordered field): A non-singular -> inverse n A t <> None
+   (partial pivoting by |.| only ever picks a zero pivot when the whole remaining column is zero).
+   Tested instead: singular inputs give "assert" on both sides, non-singular ones never do
+   (exact correspondence + spec oracle A*inv(A) = I, n <= 4 (6 thorough) incl. exhaustive 2x2 over
+   {-2..2} and 3x3 over {-1,0,1}). *)
 End Field.
 
 (* ------------------------------------------------------------------------------------ *)
@@ -237,7 +236,26 @@ Proof. exact (sm_adjoint_add sadj_add N M a b). Qed.
 End Ring.
 
 (* ------------------------------------------------------------------------------------ *)
-(* A6 QR.
+(* A6 QR, the part that needs no square root (any Scalar record): array sizes, tau has
+   min(m,n) entries, the accessor R is upper triangular for every shape and storage order, and
+   factorize() -- hence Q(i,j) -- does not depend on what the member vector q held before
+   (q.resize keeps old content when a QR object is reused). *)
+Theorem C16_qr_sizes (S : Scalar) m n rs cs (A : vec S) :
+  length (fst (qr_compute m n rs cs A)) = length A /\ length (snd (qr_compute m n rs cs A)) = Nat.min m n.
+Proof. exact (qr_compute_lengths m n rs cs A). Qed.
+Print Assumptions C16_qr_sizes.
+
+Theorem C16_qr_R_upper_triangular (S : Scalar) rs cs (A' : vec S) i j : j < i -> qr_R rs cs A' i j = s0.
+Proof. exact (qr_R_upper rs cs A' i j). Qed.
+
+Theorem C16_qr_factorize_junk_independent (S : Scalar) m n rs cs (A q q' : vec S) : length q = length q' ->
+  fst (qr_factorize m n rs cs A q) = fst (qr_factorize m n rs cs A q') /\
+  forall i j, i < m -> j < n ->
+    qr_Q rs cs (snd (qr_factorize m n rs cs A q)) i j = qr_Q rs cs (snd (qr_factorize m n rs cs A q')) i j.
+Proof. exact (qr_factorize_junk_independent m n rs cs A q q'). Qed.
+Print Assumptions C16_qr_factorize_junk_independent.
+
+(* A6 QR, correctness.
    FULL STATEMENT (unproved; needs a scalar with a TRUE square root, e.g. R):
    Section hypotheses: Sfield S, total order compatible with the field, sabs x = |x|,
      forall x, 0 <= x -> ssqrt x * ssqrt x = x /\ 0 <= ssqrt x, sadj = id.
@@ -287,12 +305,12 @@ Theorem C16_skyline_lu_solves_Qc reverse (A : crs QcS) f (rhs x y : vec QcS) :
 Proof. exact (C16_skyline_lu_solves QcS QcS_field QcS_eqb reverse A f rhs x y). Qed.
 Print Assumptions C16_skyline_lu_solves_Qc.
 
-Theorem C16_inverse_exact_partial_Qc n (A t B : vec QcS) : (n <= 2)%nat ->
+Theorem C16_inverse_exact_Qc n (A t B : vec QcS) :
   length A = (n * n)%nat -> length t = (n * n)%nat ->
   inverse n A t = Some B ->
   forall i j, i < n -> j < n -> mat_mul_get n A B i j = if Nat.eqb i j then s1 else s0.
-Proof. exact (C16_inverse_exact_partial QcS QcS_field QcS_eqb eq_refl n A t B). Qed.
-Print Assumptions C16_inverse_exact_partial_Qc.
+Proof. exact (C16_inverse_exact QcS QcS_field QcS_eqb eq_refl n A t B). Qed.
+Print Assumptions C16_inverse_exact_Qc.
 
 Theorem C16_sm_ring_Qc N K1 K2 M (a b c : vec QcS) :
   sm_mul N K2 M (sm_mul N K1 K2 a b) c = sm_mul N K1 M a (sm_mul K1 K2 M b c) /\
